@@ -268,10 +268,17 @@ def r3_r4(ctx, regions):
                     ctx.fail(r4, "%s#gated-name-in-ungated-code" % b.path,
                              "a feature-only field/type is used outside every gated region", span_loc(s["sp"]),
                              {"function": b.path, "statement": str(s)[:300]})
-            if reg is None or gated_body or exempt:
+            helper_stmt = False
+            if gated_body and b.def_kind in ("Fn", "AssocFn") and not b.derived and not exempt:
+                # a function that exists only with the feature: whatever it is handed must stay as it is - its parameters
+                # are ungated places unless they are the gated fields
+                helper_stmt = True
+            elif reg is None or gated_body or exempt:
                 continue
-            if reg["kind"] in ITEM_KINDS:
-                continue
+            elif reg["kind"] in ITEM_KINDS:
+                if not b.blocks[bb].get("inl"):
+                    continue
+                helper_stmt = True      # statement of a feature-only helper expanded into this function (inline.py)
             n3 += 1
             probs = []
             if not target_ok(s["pl"], bb, j):
@@ -281,8 +288,9 @@ def r3_r4(ctx, regions):
                 if not target_ok(rv["pl"], bb, j):
                     probs.append("mutable borrow of ungated place %s" % _pl(b, rv["pl"]))
             if probs:
-                ctx.fail(r3, "%s#%s" % (b.path, probs[0]), "gated code changes state the ungated decoder uses: " + "; ".join(probs),
-                         span_loc(s["sp"]), {"function": b.path, "region": reg["span"], "text": reg["text"][:120]})
+                ctx.fail(r3, "%s#%s" % (b.path, probs[0]), "gated code changes state the ungated decoder uses: " + "; ".join(probs) + (
+                    " (inside a function that exists only with the feature)" if helper_stmt else ""),
+                         span_loc(s["sp"]), {"function": b.path, "region": (reg or {}).get("span"), "text": ((reg or {}).get("text") or "")[:120]})
         for cs in b.calls():
             reg = regions.containing(user_span(cs.term.get("sp")))
             callee = cs.callee or ""
